@@ -24,6 +24,7 @@ func init() {
 	vHarnesses["H_C14_frame"] = H_C14_frame
 	vHarnesses["H_C14_atoms"] = H_C14_atoms
 	vHarnesses["H_C14_two"] = H_C14_two
+	vHarnesses["H_C14_two_deep"] = H_C14_two_deep
 }
 
 type c14Pair struct {
@@ -397,6 +398,10 @@ func H_C14_two(inst int) {
 	verify(rb.ok && rb.err == "" && rb.out == progB.want, "interpreter B running concurrently with A does not give its solo answers: ok="+bstr(rb.ok)+" err="+rb.err+" out="+rb.out)
 	reach("c14/two", true)
 }
+
+// H_C14_two_deep: the diagonal program pairs of H_C14_two (both goroutines run the same program), explored with a larger
+// preemption bound (thorough tier).
+func H_C14_two_deep(inst int) { H_C14_two(inst * (len(c14Programs) + 1)) }
 
 func bstr(b bool) string {
 	if b {
